@@ -415,3 +415,63 @@ pub fn finish(ctx: &Ctx) -> i32 {
 pub fn hex32(b: &[u8]) -> String {
     hex::encode(b)
 }
+
+/// Greedy delta-debugging over a vector: repeatedly drop chunks (halving the chunk
+/// size) while `fails` stays true. Used to shrink histories / vectors to a small
+/// reproduction before they are written to a replay file.
+pub fn ddmin<T: Clone>(mut v: Vec<T>, mut fails: impl FnMut(&[T]) -> bool) -> Vec<T> {
+    let mut chunk = v.len().div_ceil(2).max(1);
+    let mut budget = 4000usize;
+    while chunk >= 1 && !v.is_empty() && budget > 0 {
+        let mut i = 0;
+        let mut progressed = false;
+        while i < v.len() && budget > 0 {
+            let end = (i + chunk).min(v.len());
+            let mut cand = Vec::with_capacity(v.len() - (end - i));
+            cand.extend_from_slice(&v[..i]);
+            cand.extend_from_slice(&v[end..]);
+            budget -= 1;
+            if fails(&cand) {
+                v = cand;
+                progressed = true;
+            } else {
+                i += chunk;
+            }
+        }
+        if chunk == 1 && !progressed {
+            break;
+        }
+        if !progressed {
+            chunk /= 2;
+        } else {
+            chunk = chunk.min(v.len().max(1));
+        }
+    }
+    v
+}
+
+/// Element-wise simplification of a u64 vector (towards 0) while `fails` holds.
+pub fn simplify_u64s(mut v: Vec<u64>, mut fails: impl FnMut(&[u64]) -> bool) -> Vec<u64> {
+    let mut budget = 3000usize;
+    for i in 0..v.len() {
+        if budget == 0 {
+            break;
+        }
+        if v[i] == 0 {
+            continue;
+        }
+        let old = v[i];
+        for cand in [0u64, 1] {
+            if cand == old {
+                continue;
+            }
+            v[i] = cand;
+            budget -= 1;
+            if fails(&v) {
+                break;
+            }
+            v[i] = old;
+        }
+    }
+    v
+}
